@@ -1,3 +1,4 @@
+import Proofs.EcdsaInstNamed
 import Proofs.EcdsaInstToy
 import Proofs.EcdsaInstCurve
 import Proofs.EcdsaEntry
@@ -104,5 +105,30 @@ theorem sign_then_verify_on_curve {β σ : Type} (c : Affine.Crv) (C : Ctx p a b
 example : ∃ C : Ctx 11 1 6, OnCurve.Matches OnCurve.toyCrv C := OnCurve.toy_matches
 
 end OnCurve
+
+/-! ### the named curves
+For each of the 16 named curves with cofactor 1 (rows of `Generated/Curves.lean`, re-extracted from the source on
+every run) the only hypotheses left are the SEC 2 / FIPS 186 / RFC 5639 facts **p prime, n prime, #E(𝔽_p) = n**
+(DESIGN §4); generator on the curve, reduced coordinates, Δ ≠ 0, h = 1 are computed by the kernel
+(`OnCurve.rowCheck_named`), `n • G = 0` is Lagrange, ⟨G⟩ is the whole group. -/
+section Named
+open GroupInterface
+
+theorem sign_then_verify_named (row : Gen.CurveRow) (hrow : row ∈ [Gen.curve_NIST192p, Gen.curve_NIST224p, Gen.curve_NIST256p, Gen.curve_NIST384p,
+      Gen.curve_NIST521p, Gen.curve_SECP256k1, Gen.curve_BRAINPOOLP160r1, Gen.curve_BRAINPOOLP192r1,
+      Gen.curve_BRAINPOOLP224r1, Gen.curve_BRAINPOOLP256r1, Gen.curve_BRAINPOOLP320r1, Gen.curve_BRAINPOOLP384r1,
+      Gen.curve_BRAINPOOLP512r1, Gen.curve_SECP112r1, Gen.curve_SECP128r1, Gen.curve_SECP160r1])
+    [Fact row.p.Prime] (hnp : row.n.Prime)
+    (hcard : Nat.card (Jac.Grp ((row.a : ℤ) : ZMod row.p) ((row.b : ℤ) : ZMod row.p)) = row.n)
+    {β σ : Type} (d : ℤ) (hd : 1 ≤ d ∧ d < row.n) (dg : Bytes) (k : Option ℤ) (rand : ℤ → Res ℤ)
+    (enc : ℤ → ℤ → ℤ → Res β) (wrap : β → σ) (dec : σ → ℕ → Res (ℕ × ℕ)) (hcodec : Codec enc wrap dec row.n)
+    (allow : Bool) (sig : β)
+    (hsig : signDigest (OnCurve.ops (OnCurve.crvOfRow row)) d dg k rand enc allow = .ok sig) :
+    ∃ Q, fromSecretExponent (OnCurve.ops (OnCurve.crvOfRow row)) d = .ok Q ∧
+      verifyDigest (OnCurve.ops (OnCurve.crvOfRow row)) Q dec (wrap sig) dg allow = .ok true := by
+  obtain ⟨C, M, hn⟩ := OnCurve.matchesRec_of_row row hnp hcard (OnCurve.rowCheck_named row hrow)
+  exact sign_then_verify_on_curve _ C M.toMatches d hd dg k rand enc wrap dec hcodec allow sig hsig
+
+end Named
 
 end C01
